@@ -25,7 +25,7 @@ def strip_fields(s):
 
 
 SYNTAX = {'css': (': ', ';'), 'scss': (': ', ';'), 'less': (': ', ';'), 'sass': (': ', ''), 'stylus': (' ', ''), 'sss': (': ', ';')}
-NUM_KEYS = ['p', 'm', 'w', 'h', 't', 'l', 'r', 'b', 'fsz', 'mt', 'pl', 'z', 'lh', 'fw', 'op', 'zom', 'fx', 'mah', 'miw', 'ti', 'bdrs']
+NUM_KEYS = ['p', 'm', 'w', 'h', 't', 'l', 'r', 'b', 'fsz', 'mt', 'pl', 'z', 'lh', 'fw', 'op', 'zom', 'fx', 'fxg', 'fxsh', 'mah', 'miw', 'ti', 'bdrs']
 COLOR_KEYS = ['c', 'bgc', 'bdc', 'olc']
 VALS = ['10', '-10', '0', '.5', '1.', '1.25', '10p', '2e', '3x', '1r', '10px', '#f', '#fc0', '#e7bc1b', '#0a0b0c', '#f.5', '#t', '#', '!', '-', '+', '--x', 'a', 'auto', 'block', 'ib', 'n',
         '(1, 2)', '"s"', "'q'", '${1:x}', ':', ' ', 'sol', 'das', 'lg(to right, #000, #fff)', 'b', 'bold', 'bo', 'url(x)', 'repeat(2)', '%', '/', '10-20', 'c', 'h', 'r', 'nw', ':a(1)', ':n(1)', ':b(2)', 'i(1)', ':s(1, 2)', '-a(x, y)', ':r(1)', 'rgb(0,0,0)', 'calc(10px)']
@@ -52,7 +52,7 @@ def gen_values(rnd, key_is_color):
         d = rnd.choice([1, 2, 3, 3, 6, 6])
         digits = ''.join(rnd.choice('0123456789abcdef') for _ in range(d))
         if d == 6 and rnd.random() < .4: digits = ''.join(ch * 2 for ch in digits[:3])
-        alpha = rnd.choice([None, None, None, None, '.5', '.25', '.1', '.75', '.9', '.0', '.00', '.05'])
+        alpha = rnd.choice([None, None, None, None, '.5', '.25', '.1', '.75', '.9', '.0', '.00', '.05', '.125', '.005', '.9999', '.0625', '.333'])
         return '#' + digits + (alpha or ''), [('color', digits, alpha)]
     n = rnd.choice([1, 1, 2, 3, 4])
     s = ''
@@ -77,6 +77,18 @@ def gen_values(rnd, key_is_color):
     if rnd.random() < .1 and not items[-1][3] and '.' not in items[-1][2]:
         s += '.'; items[-1] = ('num', items[-1][1], items[-1][2] + '.', '')     # `1.` float form, last value only
     return s, items
+
+
+# documented defaults of the options the C05 statement names (pinned copies: a changed DEFAULT table must not move the oracle with it)
+PINNED = {'stylesheet.unitless': ['z-index', 'line-height', 'opacity', 'font-weight', 'zoom', 'flex', 'flex-grow', 'flex-shrink'],
+          'stylesheet.unitAliases': {'e': 'em', 'p': '%', 'x': 'ex', 'r': 'rem'}, 'stylesheet.intUnit': 'px', 'stylesheet.floatUnit': 'em', 'stylesheet.shortHex': True}
+
+
+def pinned_options(case, opt):
+    opt = dict(opt); uo = (case['c'].get('options') or {})
+    for k, dv in PINNED.items():
+        if k not in uo: opt[k] = dv
+    return opt
 
 
 def render_number(neg, txt, unit, prop, opt):
@@ -209,7 +221,7 @@ def effective_options(c):
 def oracle_C05(case, o):
     from emmet.snippets import stylesheet_snippets
     if o[0] != 'ok': return ['no-output| expand(%r) -> %s %s' % (case['s'], o[0], o[1])]
-    opt = effective_options(case['c'])
+    opt = pinned_options(case, effective_options(case['c']))
     between, after = opt.get('stylesheet.between'), opt.get('stylesheet.after')
     lines = []
     for key, items, imp in case['spec']:
@@ -227,7 +239,7 @@ def oracle_C05(case, o):
 def oracle_C06(case, o):
     from emmet.snippets import stylesheet_snippets
     if o[0] != 'ok': return ['no-output| expand(%r) -> %s %s' % (case['s'], o[0], o[1])]
-    opt = effective_options(case['c'])
+    opt = pinned_options(case, effective_options(case['c']))
     between, after = opt.get('stylesheet.between'), opt.get('stylesheet.after')
     got = strip_fields(o[1])
     g = case['g']
